@@ -219,3 +219,31 @@ Proof.
     + specialize (Ht eq_refl). apply firstn_nth_eq; [lia|unfold k_max in Ht; lia|intros i _; apply Hsl].
     + exfalso. destruct (Hf eq_refl) as [Hs0 H0]. apply Nat.eqb_neq in Ec. apply Ec. unfold current. rewrite Hs0. destruct (k_top s); reflexivity.
 Qed.
+
+Lemma firstn_S_nth (l : list nat) : forall p, p < length l -> firstn (S p) l = firstn p l ++ [nth p l 0].
+Proof.
+  induction l as [|x t IH]; intros [|p] H; simpl in *; try lia; [reflexivity|]. f_equal. apply IH. lia.
+Qed.
+
+Lemma firstn_set_slot_below l : forall i n v, n <= i -> firstn n (set_slot l i v) = firstn n l.
+Proof.
+  induction l as [|x t IH]; intros [|i] [|n] v H; simpl; try reflexivity; try lia. f_equal. apply IH. lia.
+Qed.
+
+(** on the list of stacked buffers a pop removes the head *)
+Theorem pop_is_tail s : KInv s -> current s <> 0 -> as_list (pop s) = tl (as_list s).
+Proof.
+  intros [Hf [Ht [Ha Hb]]] Hc.
+  assert (Hal : k_alloc s = true).
+  { destruct (k_alloc s) eqn:Ea; [reflexivity|]. destruct (Hf eq_refl) as [Hs H0]. exfalso. apply Hc. unfold current. rewrite Hs. destruct (k_top s); reflexivity. }
+  specialize (Ht Hal). unfold k_max in Ht.
+  unfold as_list at 2. unfold depth. destruct (Nat.eqb (current s) 0) eqn:E; [apply Nat.eqb_eq in E; contradiction|].
+  rewrite firstn_S_nth by exact Ht. rewrite rev_app_distr. cbn [rev app tl].
+  unfold pop. rewrite E. unfold as_list, depth, current. cbn [k_top k_slots].
+  destruct (k_top s) as [|p] eqn:Etop.
+  - cbn [Nat.sub]. rewrite nth_set_slot_same by lia. cbn [Nat.eqb firstn rev]. reflexivity.
+  - replace (S p - 1) with p by lia. rewrite nth_set_slot_other by lia.
+    assert (Hp : nth p (k_slots s) 0 <> 0) by (apply Hb; lia).
+    destruct (Nat.eqb (nth p (k_slots s) 0) 0) eqn:E2; [apply Nat.eqb_eq in E2; contradiction|].
+    rewrite firstn_set_slot_below by lia. reflexivity.
+Qed.
